@@ -6,6 +6,7 @@ package harness
 
 import (
 	"fmt"
+	"strings"
 	"testing"
 
 	"github.com/antlr4-go/antlr/v4"
@@ -114,6 +115,10 @@ var c20Queue = Register(Prop[c20QueueCase]{
 	ID: "C20", Name: "queue",
 	Gen: func(t *rapid.T) c20QueueCase {
 		sizes := []int{1, 1, 2, 3, 5, 7, 8, 9, 15, 16, 17, 33}
+		if rapid.IntRange(0, 3).Draw(t, "large") == 0 {
+			// many elements queued at once: later growths (the growth policy may change with the size)
+			sizes = []int{1, 3, 8, 17, 33, 64, 100, 129, 257, 300, 513, 600, 1025, 2100}
+		}
 		n := rapid.IntRange(1, 40).Draw(t, "bursts")
 		var c c20QueueCase
 		for i := 0; i < n; i++ {
@@ -194,6 +199,29 @@ func TestC20QueueGrowthOffsets(t *testing.T) {
 		})
 }
 
+// Every growth up to several thousand elements, from a few head offsets each.
+var c20QueueLadder = Register(Prop[c20QueueCase]{ID: "C20", Name: "queue-growth-ladder", Run: runC20Queue})
+
+func TestC20QueueGrowthLadder(t *testing.T) {
+	Enumerate(t, c20QueueLadder, true, "fill levels 8, 16, ..., 8192 (and one more, one less): rotate the head by 0, 1, half or all-but-one of the level, fill to the level, exceed it by 1..3 elements, partly drain, refill",
+		func(yield func(c20QueueCase) bool) {
+			for level := 8; level <= 8192; level *= 2 {
+				for _, fill := range []int{level - 1, level, level + 1} {
+					for _, h := range []int{0, 1, level / 2, level - 1} {
+						for extra := 1; extra <= 3; extra++ {
+							c := c20QueueCase{}
+							c.Ops = append(c.Ops, qop{K: "e", N: h}, qop{K: "d", N: h}, qop{K: "e", N: fill}, qop{K: "p"}, qop{K: "e", N: extra}, qop{K: "s"},
+								qop{K: "d", N: fill / 2}, qop{K: "p"}, qop{K: "e", N: fill}, qop{K: "d", N: 3}, qop{K: "e", N: 3})
+							if !yield(c) {
+								return
+							}
+						}
+					}
+				}
+			}
+		})
+}
+
 // ---------------------------------------------------------------------------------------
 // (a') stack against a slice model
 
@@ -225,6 +253,10 @@ func runC20Stack(c c20StackCase) Verdict {
 			}
 			s.PushAll(vals...)
 			model = append(model, vals...)
+			// the batch belongs to the caller, who may reuse it: the stack must hold its own copy
+			for j := range vals {
+				vals[j] = -1000 - j
+			}
 		case "pop":
 			if len(model) > 0 {
 				got, want := s.Pop(), model[len(model)-1]
@@ -272,7 +304,7 @@ var c20Stack = Register(Prop[c20StackCase]{
 			case 0, 1, 2, 3:
 				c.Ops = append(c.Ops, sop{K: "push"})
 			case 4:
-				c.Ops = append(c.Ops, sop{K: "pushall", N: rapid.IntRange(0, 9).Draw(t, "n")})
+				c.Ops = append(c.Ops, sop{K: "pushall", N: rapid.SampledFrom([]int{0, 1, 2, 3, 5, 8, 9, 17, 40, 300}).Draw(t, "n")})
 			case 5, 6, 7:
 				c.Ops = append(c.Ops, sop{K: "pop"})
 			case 8, 9:
@@ -376,7 +408,23 @@ func runC20Tokens(c textCase) Verdict {
 }
 
 func genTokenInput(t *rapid.T) textCase {
-	switch rapid.IntRange(0, 9).Draw(t, "kind") {
+	switch rapid.IntRange(0, 10).Draw(t, "kind") {
+	case 10:
+		// long scripts: many indented blocks, so that many synthesised tokens are queued over the run
+		n := rapid.SampledFrom([]int{40, 130, 255, 256, 257, 300, 520, 700, 1100}).Draw(t, "blocks")
+		depth := rapid.IntRange(1, 3).Draw(t, "depth")
+		var b strings.Builder
+		b.WriteString("title: A\n---\n")
+		for i := 0; i < n; i++ {
+			for d := 0; d <= depth; d++ {
+				b.WriteString(strings.Repeat("    ", d) + fmt.Sprintf("-> option %d.%d\n", i, d))
+			}
+			b.WriteString(strings.Repeat("    ", depth+1) + "body\n")
+		}
+		if rapid.Bool().Draw(t, "close") {
+			b.WriteString("===\n")
+		}
+		return textCase{Input: b.String(), Kind: "many-blocks"}
 	case 0:
 		return textCase{Input: rapid.String().Draw(t, "s"), Kind: "arbitrary"}
 	case 1, 2:
